@@ -57,7 +57,7 @@ impl Check for C14 {
         "C14"
     }
     fn rule(&self) -> String {
-        "self-contained progGen programs (block-wrapped script, no global effect; cycles via object graphs, closures, settled promises, exhausted and abandoned generators, frames of failed calls via planted uncaught throws, host holes answered by the simulated host) in two forms: (a) run k in 6..12 times on one interpreter with collect() after each, GC schedule during the runs from the C02 space; (b) a loop of 8-12 iterations inside one run with a host hole per iteration, the host forcing a collection at every suspension. Oracle: live-object counts must not grow strictly over the last four observations. non-trivial = at least six observations were taken and the program allocated; distinct = distinct (program digest, form)".into()
+        "self-contained progGen programs (block-wrapped script, no global effect; cycles via object graphs, closures, settled promises, exhausted and abandoned generators, frames of failed calls via planted uncaught throws, host holes answered by the simulated host) in two forms: (a) run k in 6..12 times on one interpreter with collect() after each, GC schedule during the runs from the C02 space; (b) a loop of 8-12 iterations inside one run with a host hole per iteration, the host forcing a collection at every suspension. Oracle: live-object counts must not grow strictly over the last four observations. non-trivial = at least six observations were taken and the program allocated; distinct = distinct (program digest, form). Also: unwrapped repetition (top-level declarations with short and >64-byte names replaced by every run), the host registering lib:util again before every repetition, author-written corpus snippets (across runs and as the body of an inside-run loop). Second oracle (exactness): the live counts after the host collect() must equal those of the same history replayed with automatic collection off".into()
     }
     fn components(&self) -> Value {
         json!({"real": ["Interpreter (reused instance)", "BytecodeVM", "gc.rs", "builtins", "order ledger"], "stub": ["host", "providers", "collector schedule"], "not_run": ["module-mode programs (module environments are rooted forever by design)", "ffi"]})
